@@ -95,7 +95,11 @@ func genProgram(r *core.Rand) *elfref.Desc {
 		for i := 1; i < len(prog); i++ {
 			k := rvref.Kind(prog[i-1].Name)
 			if r.Intn(100) < p && k != "B" && k != "J" && prog[i-1].Name != "jalr" && rvref.Kind(prog[i].Name) != "B" && rvref.Kind(prog[i].Name) != "J" && prog[i].Name != "jalr" {
-				prog[i].Word, prog[i].Name, prog[i].Text = prog[i-1].Word, prog[i-1].Name, prog[i-1].Text
+				src := i - 1
+				if d := r.Range(1, 3); i-d >= 0 && rvref.Kind(prog[i-d].Name) != "B" && rvref.Kind(prog[i-d].Name) != "J" && prog[i-d].Name != "jalr" {
+					src = i - d // identical lines with others in between, too
+				}
+				prog[i].Word, prog[i].Name, prog[i].Text = prog[src].Word, prog[src].Name, prog[src].Text
 			}
 		}
 	}
@@ -154,7 +158,10 @@ func (p *policy) num() string {
 		return fmt.Sprint(-1 - r.Intn(5))
 	case 7:
 		return []string{"x", "1.5", "0x10", "", "１", "1e3", "+2"}[r.Intn(7)]
-	case 8: // a decimal line number written with leading zeros
+	case 8: // a decimal line number written with leading zeros (now and then thousands)
+		if r.Chance(1, 5) {
+			return strings.Repeat("0", r.Range(4090, 5000)) + fmt.Sprint(r.Intn(p.nLines+1))
+		}
 		return strings.Repeat("0", r.Range(1, 3)) + fmt.Sprint(r.Intn(p.nLines+1))
 	default:
 		return fmt.Sprint(r.Intn(p.nLines + 1))
@@ -280,7 +287,7 @@ func (p *policy) disCommand() string {
 		return spaced(r, pick(r, "entrypoint", "entry"))
 	case 4:
 		pats := []string{"add", "x1", "Block", "ld", "^$", "0x", "x[0-9]+, x0", ".", "zzzz", "Block 1", "s[bhwd] ", "\\|", "[", "j", "beq|bne",
-			".*", "x*", "q?", "(add|sub|ld)", "x1,", "x2,", "x3,", "1:", "0:", "x1,|x2,", "2:", ",", ":", "[0-9A-F][0-9A-F] [0-9A-F][0-9A-F]", "Block [2-9]", "x3[01]?", "lw|ld|sd|sw"}
+			".*", "x*", "q?", "(add|sub|ld)", "x1,", "x2,", "x3,", "1:", "0:", "x1,|x2,", "2:", ",", ":", "a0", "b3", "ef", "[0-9a-f][0-9a-f] [0-9a-f][0-9a-f]", "ff", "block", "e[0-9]", "1b", "[0-9A-F][0-9A-F] [0-9A-F][0-9A-F]", "Block [2-9]", "x3[01]?", "lw|ld|sd|sw"}
 		if p.lastFind != "" && r.Chance(1, 4) {
 			// the previous search once more, continued by further words
 			more := pick(r, "x1,", "x2,", "x5,", "x0", "1", "0x", "[0-9]+", ".*", "x[0-9]+,")
@@ -292,6 +299,11 @@ func (p *policy) disCommand() string {
 			return spaced(r, pick(r, "find", "f", "/"), pick(r, pats...), pick(r, pats...))
 		}
 		p.lastFind = pick(r, append(pats, "lui", "addi", "add", "ld", "sd", "lw", "Block")...)
+		if r.Chance(1, 30) {
+			// a pattern longer than any buffer: a short one that matches
+			// followed by thousands of optional nothings and one impossible letter
+			p.lastFind = pick(r, "add", "x1", "Block", "l[dw]") + strings.Repeat("x?", r.Range(2050, 2400)) + pick(r, "Q", "")
+		}
 		return spaced(r, pick(r, "find", "f", "/"), p.lastFind)
 	case 5:
 		from := p.num()
@@ -339,7 +351,7 @@ func (p *policy) emuCommand() string {
 	case 2:
 		return spaced(r, pick(r, "memory", "mem", "m"), pick(r, "memory", "memory", "memory", "io", "x", "#r:w:ip"))
 	case 3:
-		return spaced(r, pick(r, "regmod", "rmod"), pick(r, "x1", "x2", "x5", "x6", "x31", "#r:w:ip", "csr1", "nosuch"))
+		return spaced(r, pick(r, "regmod", "rmod"), pick(r, "x1", "x2", "x5", "x6", "x31", "#r:w:ip", "csr1", "nosuch", "x5=0x1234567890abcdef", "averyveryverylongregistername", "x"+strings.Repeat("1", 40)))
 	case 4:
 		return pick(r, "help", "h")
 	default:
